@@ -11,7 +11,8 @@
       (value by the standard library's [NilEmpty.uint_of_string]); any other pp-number is handed to
       the decoder [fdec] of floating constants, a parameter (Python's repr of a binary64 is not
       modelled: the hand model treats the spelling of a float literal as an oracle too);
-    - punctuators: the 12 two-character ones are tried first.
+    - punctuators: the 12 two-character ones are tried first; braces;
+    - a // comment runs to the end of the line and leaves no token.
     Anything else (an unknown character, '.' at the start of a token, a pp-number that [fdec]
     rejects) makes the lexer fail ([None]).
 
@@ -49,7 +50,11 @@ Definition is_sign (c : ascii) : bool := Ascii.eqb c "+" || Ascii.eqb c "-".
 (** the chunk being read: an identifier, or a pp-number together with "the last character was e/E" *)
 Inductive chunk : Type :=
   | CId (s : string)
-  | CNum (s : string) (last_e : bool).
+  | CNum (s : string) (last_e : bool)
+  | CCmt.                          (* inside a // comment: up to the end of the line *)
+
+Definition is_newline (c : ascii) : bool := nat_of_ascii c =? 10.
+Definition is_slash (c : ascii) : bool := Ascii.eqb c "/".
 
 Definition snoc (s : string) (c : ascii) : string := (s ++ String c "")%string.
 
@@ -59,6 +64,9 @@ Definition keyword_token (s : string) : option ctoken :=
   else if String.eqb s "sizeof" then Some TSizeof
   else if String.eqb s "return" then Some TReturn
   else if String.eqb s "restrict" then Some TRestrict
+  else if String.eqb s "if" then Some (TId "if")         (* structure words: see [stok_of] below *)
+  else if String.eqb s "else" then Some (TId "else")
+  else if String.eqb s "while" then Some (TId "while")
   else match base_type s with Some _ => Some (TTypeName s) | None => None end.
 
 Definition word_token (s : string) : ctoken :=
@@ -85,6 +93,7 @@ Definition chunk_token (ch : chunk) : option ctoken :=
       | Some z => Some (TInt z)
       | None => match fdec s with Some f => Some (TFlt f) | None => None end
       end
+  | CCmt => None   (* never asked: [flush] drops a comment *)
   end.
 
 (** the chunk extended by one more character, if that character continues it *)
@@ -99,6 +108,7 @@ Definition extend (w : option chunk) (c : ascii) : option chunk :=
       if is_word c || is_dot c then Some (CNum (snoc s c) (is_e c))
       else if is_sign c && le then Some (CNum (snoc s c) false)
       else None
+  | Some CCmt => if is_newline c then None else Some CCmt
   end.
 
 Definition prep (ts : list ctoken) (k : option (list ctoken)) : option (list ctoken) :=
@@ -107,6 +117,7 @@ Definition prep (ts : list ctoken) (k : option (list ctoken)) : option (list cto
 Definition flush (w : option chunk) (k : option (list ctoken)) : option (list ctoken) :=
   match w with
   | None => k
+  | Some CCmt => k
   | Some ch => match chunk_token ch with Some t => prep [t] k | None => None end
   end.
 
@@ -137,6 +148,7 @@ Definition punct1 (c : ascii) : option ctoken :=
   else if Ascii.eqb c ")" then Some TRParen else if Ascii.eqb c "[" then Some TLBrack
   else if Ascii.eqb c "]" then Some TRBrack else if Ascii.eqb c "," then Some TComma
   else if Ascii.eqb c ";" then Some TSemi else if Ascii.eqb c "=" then Some TAssign
+  else if Ascii.eqb c "{" then Some (TId "{") else if Ascii.eqb c "}" then Some (TId "}")   (* see [stok_of] *)
   else None.
 
 (** * The lexer: [lex w s] = the tokens of [s] read with the unfinished chunk [w] *)
@@ -151,6 +163,7 @@ Fixpoint lex (w : option chunk) (s : string) {struct s} : option (list ctoken) :
             (if is_space c then lex None r
              else match r with
                   | String d r' =>
+                      if is_slash c && is_slash d then lex (Some CCmt) r' else
                       match punct2 c d with
                       | Some t => prep [t] (lex None r')
                       | None =>
@@ -251,3 +264,28 @@ Definition float_oracle_ok (fdec : string -> option F) (str_float : F -> string)
      str_float f = ("-" ++ str_float (Babs f))%string) /\
   (forall f, is_finite f = true -> Bsign f = false ->
      float_shape (str_float f) = true /\ fdec (str_float f) = Some f).
+
+(** * Statement-level tokens: expression tokens plus braces and the words if / else / while.
+
+    Inside [lex] the five structure tokens travel as the pseudo identifiers [TId "{"], [TId "}"],
+    [TId "if"], [TId "else"], [TId "while"] (none of them is an [ident_ok] name, so no identifier of a
+    tree inside [names_ok] is confused with them); [slex] is the lexer for statement text. *)
+Inductive stok : Type :=
+  | SK (t : ctoken)
+  | SLBrace | SRBrace | SIf | SElse | SWhile.
+
+Definition stok_of (t : ctoken) : stok :=
+  match t with
+  | TId x =>
+      if String.eqb x "{" then SLBrace else if String.eqb x "}" then SRBrace
+      else if String.eqb x "if" then SIf else if String.eqb x "else" then SElse
+      else if String.eqb x "while" then SWhile else SK t
+  | _ => SK t
+  end.
+
+Definition slex (fdec : string -> option F) (s : string) : option (list stok) :=
+  match clex fdec s with Some ts => Some (map stok_of ts) | None => None end.
+
+(** a comment that stays on its line *)
+Fixpoint no_newline (s : string) : bool :=
+  match s with EmptyString => true | String c r => negb (is_newline c) && no_newline r end.
